@@ -4,16 +4,21 @@ import (
 	"fmt"
 	"strings"
 	"testing"
+	"time"
+
+	"github.com/datastax/go-cassandra-native-protocol/message"
+	"github.com/datastax/go-cassandra-native-protocol/primitive"
 
 	"pgregory.net/rapid"
 
 	"verif/harness/evid"
 	"verif/harness/fakecass"
+	"verif/harness/wire"
 )
 
 // ---- C01: exactly one response per client request, on the request's own stream ----
 
-var c01Locals = []string{"options", "system_local", "system_peers", "system_bad_column", "use", "use_missing", "prepare_system", "register",
+var c01Locals = []string{"options", "system_local", "system_peers", "system_bad_column", "system_json", "system_func", "use", "use_missing", "prepare_system", "register",
 	"startup_again", "startup_badcomp", "auth_response", "bad_version"}
 
 func genStormScript(rt *rapid.T, maxLen int, parkPct, dropPct int) []fakecass.Outcome {
@@ -129,6 +134,82 @@ func c01Check(rec *evid.Recorder) func(stormCase) *evid.Fail {
 	}
 }
 
+// flood: one slow consumer pipelining thousands of requests (more than the proxy's
+// per-connection write queue holds) before it starts reading.
+type c01Flood struct {
+	N       int    `json:"n"`
+	Mix     int    `json:"forwarded_every"` // every Mix-th request is forwarded, the others are OPTIONS
+	Comp    string `json:"comp,omitempty"`
+	PauseMs int    `json:"pause_ms"`
+}
+
+func c01FloodCheck(c c01Flood) *evid.Fail {
+	e, err := startEnv(envOpts{Hosts: 2, NumConns: 1, Keyspaces: []string{"ks1"}})
+	if err != nil {
+		return evid.Failf("harness-env", "%v", err)
+	}
+	defer e.Close()
+	r, err := newRunner(e, 4, c.Comp)
+	if err != nil {
+		return evid.Failf("harness-client", "%v", err)
+	}
+	base := r.c.NumFrames()
+	r.c.PauseReads()
+	resumed := false
+	defer func() {
+		if !resumed {
+			r.c.ResumeReads()
+		}
+	}()
+	var buf []byte
+	for i := 0; i < c.N; i++ {
+		s := int16(i + 1)
+		if c.Mix > 0 && i%c.Mix == 0 {
+			q := reqSpec{Kind: "query", Token: nextToken()}
+			q.Stmt = stmtSpec{Text: "SELECT * FROM ks1.t WHERE tokc = '" + q.Token + "'", Idem: true}
+			f, err := buildFrame(4, s, &message.Query{Query: q.Stmt.Text, Options: &message.QueryOptions{Consistency: primitive.ConsistencyLevelOne}}, false, r.c.Comp, c.Comp != "")
+			if err != nil {
+				return evid.Failf("harness-send", "%v", err)
+			}
+			buf = append(buf, f.Bytes()...)
+		} else {
+			f, _ := wire.Msg(4, false, s, &message.Options{}, "")
+			buf = append(buf, f.Bytes()...)
+		}
+	}
+	if err := r.c.Send(buf); err != nil {
+		return evid.Failf("harness-send", "%v", err)
+	}
+	time.Sleep(time.Duration(c.PauseMs) * time.Millisecond) // the consumer is slow; only widens the explored states
+	r.c.ResumeReads()
+	resumed = true
+	stallReset()
+	if !r.c.WaitN(base+c.N, posWait) {
+		got := r.c.NumFrames() - base
+		if stalled(posWait) {
+			return evid.Failf("harness-stall", "stalled")
+		}
+		if r.c.PeerClosed() {
+			return evid.Failf("flood-closed", "proxy closed the connection of a slow consumer after %d of %d responses", got, c.N)
+		}
+		return evid.Failf("no-reply:flood", "slow consumer pipelined %d requests but only %d responses arrived", c.N, got)
+	}
+	_, _ = r.c.Fence(4, posWait)
+	r.c.Quiesce(8*time.Millisecond, 200*time.Millisecond)
+	count := map[int16]int{}
+	for _, f := range r.c.Frames()[base:] {
+		if f.F.Stream < 30000 {
+			count[f.F.Stream]++
+		}
+	}
+	for i := 0; i < c.N; i++ {
+		if n := count[int16(i+1)]; n != 1 {
+			return evid.Failf(map[bool]string{true: "no-reply:flood", false: "two-replies:flood"}[n == 0], "stream %d got %d responses (of %d pipelined requests)", i+1, n, c.N)
+		}
+	}
+	return nil
+}
+
 func TestC01(t *testing.T) {
 	rec := evid.New("C01", "fault_enumeration",
 		"1..4 clients (v3/v4, none/lz4/snappy) pipelining up to 25 (thorough 60) requests each - forwarded QUERY/EXECUTE/BATCH of both idempotency classes and locally answered frames - against 1..4 hosts x 1..2 connections whose per-attempt outcomes are scripted (every error kind, hold, silence, drop before/after reply) plus a schedule of releases and single/simultaneous connection drops; "+
@@ -152,4 +233,12 @@ func TestC01(t *testing.T) {
 		}
 		return c
 	}, check)
+
+	runProp(t, rec, "flood", perShard(evid.Pick(24, 600)), func(rt *rapid.T) c01Flood {
+		c := c01Flood{N: rapid.IntRange(1100, 6000).Draw(rt, "n"), Mix: rapid.SampledFrom([]int{0, 1, 2, 7}).Draw(rt, "mix"),
+			Comp: rapid.SampledFrom([]string{"", "lz4"}).Draw(rt, "comp"), PauseMs: rapid.IntRange(0, 40).Draw(rt, "pause")}
+		rec.Case("flood:"+js(c), "flood")
+		rec.ExtraAdd("requests_sent", int64(c.N))
+		return c
+	}, c01FloodCheck)
 }
